@@ -61,7 +61,7 @@ inductive Op (α : Type) where
   | remove (x : α)
   | clear
   | reverse
-  | sort
+  | sort (spec : Nat)   -- `sort(key=…, reverse=…)`: the spec selects the permutation
   deriving Repr
 
 /-- Result of a successful operation. -/
@@ -71,11 +71,12 @@ structure Out (α : Type) where
   event : Option (Event α) := none
 
 /-- Parameters of the model: the item validator (a partial function of call
-ordinal and item), `==` on items, and the permutation `list.sort` applies. -/
+ordinal and item), `==` on items, and the permutation `list.sort` applies for each
+`(key, reverse)` specification. -/
 structure Env (α : Type) where
   v : Callback α α
   eq : α → α → Bool
-  sort : List α → List α
+  sort : Nat → List α → List α
 
 /-- One `TraitList` method call on items `l`. -/
 def TraitList.step (E : Env α) (l : List α) : Op α → Except Exc (Out α)
@@ -184,9 +185,9 @@ def TraitList.step (E : Env α) (l : List α) : Op α → Except Exc (Out α)
   | .reverse =>
     if l.isEmpty then .ok { items := l.reverse }
     else .ok { items := l.reverse, event := some ⟨.idx 0, l, l.reverse⟩ }
-  | .sort =>
-    if l.isEmpty then .ok { items := E.sort l }
-    else .ok { items := E.sort l, event := some ⟨.idx 0, l, E.sort l⟩ }
+  | .sort sp =>
+    if l.isEmpty then .ok { items := E.sort sp l }
+    else .ok { items := E.sort sp l, event := some ⟨.idx 0, l, E.sort sp l⟩ }
 
 /-- The builtin `list` operation an `Op` stands for, arguments used as given
 (this is what `super().__setitem__` etc. do). -/
@@ -204,7 +205,7 @@ def pyStep (E : Env α) (l : List α) : Op α → Except Exc (List α × Option 
   | .remove x => (Py.remove E.eq l x).map (·, none)
   | .clear => .ok ([], none)
   | .reverse => .ok (l.reverse, none)
-  | .sort => .ok (E.sort l, none)
+  | .sort sp => .ok (E.sort sp l, none)
 
 /-- The same operation with its items passed through the item validator
 ("the same operations on the validated items"). -/
